@@ -282,6 +282,21 @@ func (s *S) json(depth int) sv[builder.JsonBuildObjectBuilder] {
 		j = fn.JsonbBuildObject()
 		p = "fn.JsonbBuildObject()"
 	}
+	if s.Wide {
+		// many distinct keys: size thresholds of the renderer (and PostgreSQL's 100-argument limit at 50 pairs)
+		sizes := []int{7, 33, 50, 51, 75, 100, 101}
+		d := depth
+		if d > 1 {
+			d = 1
+		}
+		for i, k := 0, sizes[s.n(len(sizes))]; i < k; i++ {
+			key := fmt.Sprintf("k%d", i)
+			e := s.exp(d)
+			j = j.Prop(key, e.V)
+			p += fmt.Sprintf(".Prop(%q, %s)", key, e.P)
+		}
+		return sv[builder.JsonBuildObjectBuilder]{j, p}
+	}
 	keys := []string{"id", "name", "k'ey", ""}
 	for i, k := 0, s.cnt(4); i < k; i++ {
 		key := keys[s.n(len(keys))]
